@@ -800,6 +800,8 @@ pub struct Sess {
     last_sub: u16,
     pub failed: bool,
     pub pings: u32,
+    /// `pending.len()` of the last snapshot
+    pub last_pending: usize,
 }
 
 impl Sess {
@@ -808,7 +810,7 @@ impl Sess {
         let t: Vec<&str> = first.split_whitespace().collect();
         let cfg = parse_new(&t).expect("first op must be `new`");
         let w = if cfg.v5 { Any::B(World::<V5>::new(cfg)) } else { Any::A(World::<V4>::new(cfg)) };
-        Sess { w, lines: vec![format!("{first} => ok")], unacked: vec![], last_sub: 0, failed: false, pings: 0 }
+        Sess { w, lines: vec![format!("{first} => ok")], unacked: vec![], last_sub: 0, failed: false, pings: 0, last_pending: 0 }
     }
     fn note(&mut self, op: &str, out: &str) {
         if op.starts_with("run ") {
@@ -818,6 +820,9 @@ impl Sess {
                 let (_, k, b) = (it.next(), it.next().unwrap_or(""), it.next().unwrap_or(""));
                 if k == "x" {
                     self.failed = true;
+                }
+                if k == "s" {
+                    self.last_pending = b.split('/').next().and_then(|x| x.parse().ok()).unwrap_or(0);
                 }
                 if k == "w" {
                     if b == "pingreq" {
@@ -945,7 +950,15 @@ pub enum Spec {
     Ka { v5: bool, k: u64, delay: Delay, answered: u32, traffic: Traffic, t0: u64, phase: u64, ska: Option<u16> },
     Conn { v5: bool, ct: u64, sc: Conn },
     Zero { v5: bool, ska: Option<u16>, traffic: Traffic },
-    Loop { v5: bool, max: u16, ma: bool, thr: u64, script: Vec<Step>, cut: usize, mid: u8, sp: bool, second: Option<u64>, race_queue: bool },
+    Loop { v5: bool, max: u16, ma: bool, thr: u64, script: Vec<Step>, cut: usize, mid: u8, sp: bool, second: Option<u64>, race_queue: bool,
+        /// MQTT 5: every CONNACK carries `receive_maximum = rmax` (below the client's limit `max`)
+        rmax: Option<u16>,
+        /// a user request is sitting in the channel when the second failure happens
+        late: bool },
+    /// keep-alive across a reconnect: the first connection ends while a PINGREQ is unanswered
+    /// (`cause` 0: the broker closes `f` ms after the PINGREQ, 1: the broker stays silent until
+    /// AwaitPingResp), the next connection's broker answers every PINGREQ after `delay` ms
+    KaRe { v5: bool, k: u64, cause: u8, f: u64, delay: u64 },
 }
 
 impl Spec {
@@ -976,12 +989,13 @@ impl Spec {
             ),
             Spec::Conn { v5, ct, sc } => format!("conn-{}-ct{}-{:?}", v(v5), ct, sc).replace(['(', ')'], "_"),
             Spec::Zero { v5, ska, traffic } => format!("zero-{}-{:?}-{:?}", v(v5), ska, traffic).replace(['(', ')'], "_"),
-            Spec::Loop { v5, max, thr, script, cut, mid, sp, second, race_queue, .. } => {
+            Spec::KaRe { v5, k, cause, f, delay } => format!("kare-{}-k{}-c{}-f{}-d{}", v(v5), k, cause, f, delay),
+            Spec::Loop { v5, max, thr, script, cut, mid, sp, second, race_queue, rmax, late, .. } => {
                 let mut h = std::collections::hash_map::DefaultHasher::new();
                 use std::hash::{Hash, Hasher};
                 script.hash(&mut h);
                 format!(
-                    "loop-{}-m{}-s{:08x}-c{}-f{}-sp{}-t{}{}{}",
+                    "loop-{}-m{}-s{:08x}-c{}-f{}-sp{}-t{}{}{}{}{}",
                     v(v5),
                     max,
                     h.finish() as u32,
@@ -990,7 +1004,9 @@ impl Spec {
                     *sp as u8,
                     thr,
                     second.map(|j| format!("-second{j}")).unwrap_or_default(),
-                    if *race_queue { "-race" } else { "" }
+                    if *race_queue { "-race" } else { "" },
+                    rmax.map(|r| format!("-rmax{r}")).unwrap_or_default(),
+                    if *late { "-late" } else { "" }
                 )
             }
         }
@@ -1165,12 +1181,63 @@ async fn play(spec: &Spec) -> Vec<String> {
             }
             s.finish().await
         }
-        Spec::Loop { v5, max, ma, thr, script, cut, mid, sp, second, race_queue } => {
+        Spec::KaRe { v5, k, cause, f, delay } => {
             let ver = if *v5 { "v5" } else { "v4" };
-            let mut s = Sess::new(&format!("new {ver} ka=60 ct=5 max={max} cap=10 thr={thr} ma={}", *ma as u8)).await;
+            let km = k * 1000;
+            let mut s = Sess::new(&format!("new {ver} ka={k} ct=5 max=10 cap=10 thr=0")).await;
             s.op("xport ok").await;
             s.op("run 0").await;
             s.op("in connack sp=0").await;
+            let mut t;
+            if *cause == 0 {
+                // the PINGREQ leaves at k; the broker drops the connection f ms later, unanswered
+                t = km + f;
+                s.op(&format!("run {t}")).await;
+                s.op("close").await;
+                t += 1;
+                s.op(&format!("run {t}")).await;
+            } else {
+                // silent broker: AwaitPingResp at 2k
+                t = 2 * km + f;
+                s.op(&format!("run {t}")).await;
+            }
+            s.op("xport ok").await;
+            t += 50;
+            s.op(&format!("run {t}")).await;
+            s.op("in connack sp=0").await;
+            // a healthy broker from here on: every PINGREQ answered after `delay`
+            let t_end = t + 3 * km + km / 2;
+            let mut answers: std::collections::VecDeque<u64> = Default::default();
+            loop {
+                let next = answers.front().copied().unwrap_or(t_end).min(t_end);
+                let (end, pings) = s.run_react(next, Some(*delay)).await;
+                if s.failed {
+                    break;
+                }
+                for p in pings {
+                    answers.push_back(p + delay);
+                }
+                while let Some(a) = answers.front().copied() {
+                    if a <= end {
+                        s.op("in pingresp").await;
+                        answers.pop_front();
+                    } else {
+                        break;
+                    }
+                }
+                if end >= t_end {
+                    break;
+                }
+            }
+            s.finish().await
+        }
+        Spec::Loop { v5, max, ma, thr, script, cut, mid, sp, second, race_queue, rmax, late } => {
+            let ver = if *v5 { "v5" } else { "v4" };
+            let rm = rmax.map(|r| format!(" rmax={r}")).unwrap_or_default();
+            let mut s = Sess::new(&format!("new {ver} ka=60 ct=5 max={max} cap=10 thr={thr} ma={}", *ma as u8)).await;
+            s.op("xport ok").await;
+            s.op("run 0").await;
+            s.op(&format!("in connack sp=0{rm}")).await;
             let mut t = 10u64;
             s.op(&format!("run {t}")).await;
             for st in script.iter().take(*cut) {
@@ -1198,18 +1265,23 @@ async fn play(spec: &Spec) -> Vec<String> {
             s.op("xport ok").await;
             t += 10;
             s.op(&format!("run {t}")).await;
-            s.op(&format!("in connack sp={}", *sp as u8)).await;
+            s.op(&format!("in connack sp={}{rm}", *sp as u8)).await;
             if let Some(j) = second {
                 // second failure while the carried-over requests are being replayed
                 t += j * thr + thr / 2;
                 s.op(&format!("run {t}")).await;
+                if *late && s.last_pending > 0 {
+                    // issued during the replay: it waits in the channel behind `pending`
+                    // (with `pending` already empty it would race with the EOF in select!)
+                    s.op("req pub 1 late").await;
+                }
                 s.op("close").await;
                 t += 1;
                 s.op(&format!("run {t}")).await;
                 s.op("xport ok").await;
                 t += 10;
                 s.op(&format!("run {t}")).await;
-                s.op("in connack sp=1").await;
+                s.op(&format!("in connack sp=1{rm}")).await;
             }
             t += 40 + 16 * thr;
             s.op(&format!("run {t}")).await;
@@ -1405,6 +1477,22 @@ pub fn all_specs(o: &Opts) -> Vec<Spec> {
     let mut v: Vec<Spec> = vec![];
     // --- C18 keep-alive: k x reply delay x answered x traffic x version ----------------------
     let ks: [u64; 3] = [5, 10, 60];
+    // --- keep-alive across a reconnect: the previous connection ended with a PINGREQ outstanding ---
+    // (first in the output: the driver prints at most 200 verdict lines, and a defect in the
+    // carried-over ping flag makes every keep-alive schedule diverge at its first error snapshot)
+    for v5 in [false, true] {
+        for k in ks {
+            let km = k * 1000;
+            for (cause, fs) in [(0u8, vec![1u64, km / 2, km - 1]), (1u8, vec![10u64])] {
+                for f in fs {
+                    let ds: Vec<u64> = if th { delay_grid(km, 8) } else { vec![1, km / 2, km - 1] };
+                    for delay in ds {
+                        v.push(Spec::KaRe { v5, k, cause, f, delay });
+                    }
+                }
+            }
+        }
+    }
     let t0s: &[u64] = if th { &[0, 137] } else { &[0] };
     let phases: &[u64] = if th { &[0, 911, 2503] } else { &[0] };
     for v5 in [false, true] {
@@ -1469,6 +1557,21 @@ pub fn all_specs(o: &Opts) -> Vec<Spec> {
             }
         }
     }
+    // --- MQTT 5 receive maximum below the client's limit: the window is the negotiated one -------
+    for rmax in [1u16, 2, 3] {
+        use Step::*;
+        let mut sc: Vec<Step> = (0..rmax).map(|i| u(1, &format!("w{i}"))).collect();
+        // requests beyond the negotiated window: publishes of every QoS, SUBSCRIBE, UNSUBSCRIBE
+        sc.extend([u(1, "x1"), Sub, u(0, "x0"), u(2, "x2"), Unsub, AckOld, AckOld, AckOld, RecOld, CompOld, AckAll, u(1, "y")]);
+        for cut in 0..=sc.len() {
+            for sp in [true, false] {
+                v.push(Spec::Loop { v5: true, max: 10, ma: false, thr: 0, script: sc.clone(), cut, mid: 0, sp, second: None, race_queue: false, rmax: Some(rmax), late: false });
+            }
+        }
+        for j in [0u64, 1] {
+            v.push(Spec::Loop { v5: true, max: 10, ma: false, thr: 10, script: sc.clone(), cut: sc.len() / 2, mid: 0, sp: true, second: Some(j), race_queue: false, rmax: Some(rmax), late: true });
+        }
+    }
     // --- loop clauses: scripts x every cut x session_present x (mid-frame) x (second failure) ---
     let mut scripts = base_scripts();
     if th {
@@ -1490,19 +1593,25 @@ pub fn all_specs(o: &Opts) -> Vec<Spec> {
             for cut in 0..=script.len() {
                 for sp in [true, false] {
                     let mid = ((cut + si) % 3) as u8;
-                    v.push(Spec::Loop { v5, max: *max, ma, thr: 0, script: script.clone(), cut, mid: 0, sp, second: None, race_queue: false });
+                    v.push(Spec::Loop { v5, max: *max, ma, thr: 0, script: script.clone(), cut, mid: 0, sp, second: None, race_queue: false, rmax: None, late: false });
                     if mid > 0 {
-                        v.push(Spec::Loop { v5, max: *max, ma, thr: 0, script: script.clone(), cut, mid, sp, second: None, race_queue: false });
+                        v.push(Spec::Loop { v5, max: *max, ma, thr: 0, script: script.clone(), cut, mid, sp, second: None, race_queue: false, rmax: None, late: false });
                     }
                 }
                 // repeated failure during the replay (throttle 10 ms so that the replay has a duration)
                 if cut == script.len() || cut == script.len() / 2 + 1 || (th && si < 46) {
                     for j in [0u64, 1, 2] {
-                        v.push(Spec::Loop { v5, max: *max, ma, thr: 10, script: script.clone(), cut, mid: 0, sp: true, second: Some(j), race_queue: false });
+                        v.push(Spec::Loop { v5, max: *max, ma, thr: 10, script: script.clone(), cut, mid: 0, sp: true, second: Some(j), race_queue: false, rmax: None, late: false });
+                    }
+                }
+                // a request issued while the replay is under way sits in the channel at the second failure
+                if cut == script.len() || (th && si < 46) {
+                    for j in [0u64, 1, 2] {
+                        v.push(Spec::Loop { v5, max: *max, ma, thr: 10, script: script.clone(), cut, mid: 0, sp: true, second: Some(j), race_queue: false, rmax: None, late: true });
                     }
                 }
                 if cut == script.len() && si < 24 {
-                    v.push(Spec::Loop { v5, max: *max, ma, thr: 0, script: script.clone(), cut, mid: 0, sp: true, second: None, race_queue: true });
+                    v.push(Spec::Loop { v5, max: *max, ma, thr: 0, script: script.clone(), cut, mid: 0, sp: true, second: None, race_queue: true, rmax: None, late: false });
                 }
             }
         }
